@@ -33,6 +33,10 @@ fn main() {
             0
         }
         "selftest" => selftest::run(true),
+        "profiles" => {
+            println!("{}", spaces::plan(&args[2], args.get(3).map(|t| t == "thorough").unwrap_or(false)).profiles.join(" "));
+            0
+        }
         "sched-free" => sched::free_run(),
         _ => {
             eprintln!("usage: jlmc check|worker|replay|oracle|corpus|selftest ...");
